@@ -219,6 +219,10 @@ pub fn suite_spell(ctx: &Ctx, thorough: bool, props: &str) {
                     if !o.matches(&expected(t, false)) {
                         ctx.violate("C02.spelling", "parsing yields exactly the components", inp(), format!("{o:?}"), format!("{:?}", expected(t, false)));
                     }
+                    // the keys that come out ARE the tuple's keys for a caller who compares them with text, in any letter case
+                    if p.qualifiers().iter().any(|(k, _)| !(*k == *k.as_str()) || !(*k == k.as_str().to_ascii_uppercase().as_str()) || *k == format!("{}_", k.as_str()).as_str()) {
+                        ctx.violate("C02.spelling", "parsing yields exactly the components", inp(), "a key that does not compare equal to its own text".into(), format!("{:?}", expected(t, false)));
+                    }
                     let text = p.to_string();
                     match &canon {
                         None => canon = Some(text),
@@ -398,7 +402,7 @@ pub fn suite_segments(ctx: &Ctx, thorough: bool) {
     segments_over(ctx, &pieces, if thorough { 6 } else { 4 });
     // multi-byte pieces: a hidden '/' next to characters of two, three and four bytes (byte length != character count), and characters
     // whose low byte is '/' or '.' (Я U+042F, Į U+012E), raw and escaped
-    let pieces2 = ["seg", "", "..", "日%2Fb", "€%2f", "é%2F", "\u{10000}%2Fx", "%D0%AFx", "Я", "%C4%AE", "Į%2e", "日本"];
+    let pieces2 = ["seg", "", "..", ".a", "...", "a.", "%20", "日%2Fb", "€%2f", "é%2F", "\u{10000}%2Fx", "%D0%AFx", "Я", "%C4%AE", "Į%2e", "日本"];
     segments_over(ctx, &pieces2, if thorough { 4 } else { 3 });
     ctx.sample(json!({"string": "pkg:t/seg//%2e/n", "component": "namespace"}));
 }
@@ -438,7 +442,14 @@ fn segments_over(ctx: &Ctx, pieces: &[&str], n: usize) {
                             if *g != w {
                                 ctx.violate("C07.segments", "segments are exactly the non-skipped pieces, decoded", inp(), format!("{g:?}"), format!("{w:?}"));
                             }
-                            if let Ok(p) = &r { check_segments(ctx, &s, &Obs::of(p)); }
+                            if let Ok(p) = &r {
+                                check_segments(ctx, &s, &Obs::of(p));
+                                // the same structure after a trip through the builder
+                                if let Ok(Ok(p2)) = guarded(|| p.clone().into_builder().build()) {
+                                    let g2 = if is_sub { p2.subpath().map(str::to_owned) } else { p2.namespace().map(str::to_owned) };
+                                    if g2 != *g { ctx.violate("C07.segments", "segments are exactly the non-skipped pieces, decoded", json!({"string": s, "component": which, "after": "into_builder().build()"}), format!("{g2:?}"), format!("{g:?}")); }
+                                }
+                            }
                         },
                         (Some(w), Err(k)) => ctx.violate("C07.segments", "legal segment spelling is accepted", inp(), format!("Err({k:?})"), format!("{w:?}")),
                         (None, Err(k)) => { if **k != ErrKind::InvalidEscape { ctx.violate("C07.segments", "refused with InvalidEscape", inp(), format!("{k:?}"), "InvalidEscape".into()); } },
